@@ -1408,10 +1408,43 @@ Proof.
   rewrite !mv_mv. f_equal. lia.
 Qed.
 
+(* l.atCaseInsensitive as a function of the bytes (byte arithmetic as in the code) *)
+Fixpoint cipre (ps xs : list Z) : bool :=
+  match ps with
+  | [] => true
+  | c :: p' => match xs with
+               | [] => false
+               | x :: xs' => ((x =? c) || ((x + 32) mod 256 =? c)) && cipre p' xs'
+               end
+  end.
+
+Lemma atci_from_cipre z s : reads z s -> forall ps i, 0 <= i <= len s -> Forall (fun c => c <> 0 /\ c <> 32) ps ->
+  atci_from z i ps = Ok (cipre ps (skipz i s)).
+Proof.
+  intros Hr ps. induction ps as [|c ps IH]; intros i Hi Hps; [reflexivity|]. inversion Hps as [|? ? [Hc0 Hc32] Hps']; subst.
+  cbn [atci_from cipre]. destruct (Z.eq_dec i (len s)) as [->|Hne].
+  - replace (skipz (len s) s) with (@nil Z) by (unfold skipz, len; rewrite Nat2Z.id, skipn_all; reflexivity).
+    destruct (reads_end z s Hr) as [Hp _]. unfold pkr. rewrite Hp. cbn [opt_res rbind].
+    replace (0 =? c) with false by (symmetry; apply Z.eqb_neq; congruence).
+    replace ((0 + 32) mod 256 =? c) with false by (symmetry; apply Z.eqb_neq; change ((0 + 32) mod 256) with 32; congruence). reflexivity.
+  - destruct (peekz_in_range s i ltac:(lia)) as [x Hx]. rewrite (reads_pkr z s i x Hr Hx). cbn [rbind].
+    rewrite (skipz_peek_cons s i x Hx).
+    destruct ((x =? c) || ((x + 32) mod 256 =? c)); cbn [andb]; [|reflexivity].
+    apply IH; [apply peekz_some in Hx; lia|exact Hps'].
+Qed.
+
+Lemma cipre_stop ps x : (forall c, In c ps -> (x =? c) || ((x + 32) mod 256 =? c) = false) ->
+  forall body r1 r2, cipre ps (body ++ x :: r1) = cipre ps (body ++ x :: r2).
+Proof.
+  induction ps as [|c ps IH]; intros Hn body r1 r2; [reflexivity|]. destruct body as [|b body]; cbn [app cipre].
+  - rewrite (Hn c) by (left; reflexivity). reflexivity.
+  - rewrite (IH (fun c' Hc' => Hn c' (or_intror Hc')) body r1 r2). reflexivity.
+Qed.
+
 Definition bogus_open (c1 : Z) (body : list Z) : Prop :=
   c1 = 63 \/
   (c1 = 33 /\ prefixb [45; 45] body = false /\ prefixb [91; 67; 68; 65; 84; 65; 91] body = false /\
-     (body = [] \/ exists x r, body = x :: r /\ 0 <= x < 256 /\ x <> 100 /\ x <> 68)) \/
+     cipre [100; 111; 99; 116; 121; 112; 101] (body ++ [62]) = false) \/      (* not "doctype" in any ASCII case *)
   (c1 = 47 /\ exists c2 r, body = c2 :: r /\ is_letter c2 = false).
 
 Lemma next_bogus d l pre c1 body rest :
@@ -1452,14 +1485,9 @@ Proof.
     change (skipz 2 (60 :: 33 :: body ++ 62 :: rest)) with (body ++ 62 :: rest).
     rewrite prefixb_stop by (intros [E|[E|[E|[E|[E|[E|[E|[]]]]]]]]; discriminate). rewrite Hncd. cbn [rbind].
     assert (Hci : atci_from (mv (lz l) 2) 0 [100; 111; 99; 116; 121; 112; 101] = Ok false).
-    { cbn [atci_from]. destruct Hnd as [->|(x & r & -> & Hx & Hx1 & Hx2)].
-      - rewrite (reads_pkr _ _ 0 62 Hr2) by apply peekz_cons_0. reflexivity.
-      - rewrite (reads_pkr _ _ 0 x Hr2) by apply peekz_cons_0. cbn [rbind].
-        replace ((x =? 100) || ((x + 32) mod 256 =? 100)) with false; [reflexivity|].
-        symmetry. apply orb_false_iff. split; apply Z.eqb_neq; [exact Hx1|].
-        destruct (Z.lt_ge_cases (x + 32) 256) as [Hs|Hs].
-        + rewrite Z.mod_small by lia. lia.
-        + replace (x + 32) with (x + 32 - 256 + 1 * 256) by lia. rewrite Z.mod_add by lia. rewrite Z.mod_small by lia. lia. }
+    { rewrite (atci_from_cipre _ _ Hr2) by (try (rewrite len_app, len_cons; lia); repeat constructor; lia).
+      change (skipz 0 (body ++ 62 :: rest)) with (body ++ 62 :: rest). rewrite (cipre_stop [100; 111; 99; 116; 121; 112; 101] 62 ltac:(intros c0 Hc0; repeat (destruct Hc0 as [<-|Hc0]; [reflexivity|]); destruct Hc0) body rest []).
+      rewrite Hnd. reflexivity. }
     rewrite Hci. cbn [rbind].
     rewrite (shift_bogus_run (lz l) 2 body rest Hw Hcl ltac:(lia) ltac:(lia) Hr2 Hbody). cbn [rbind fst snd]. rewrite Hp.
     replace (2 + len body + 1) with (3 + len body) by lia. replace (2 + len body - 2) with (len body) by lia.
